@@ -161,8 +161,8 @@ func TestSmoke(t *testing.T) {
 			if err := s.Restart(); err != nil {
 				t.Fatal(err)
 			}
-			_, err = s.Do(SelfTest(2))
-			if ce, ok := err.(*CrashError); !ok || !strings.Contains(ce.Stderr, "signed integer overflow") {
+			_, err = s.Do(Ping(), Ping(), Ping(), SelfTest(2), Ping())
+			if ce, ok := err.(*CrashError); !ok || !strings.Contains(ce.Stderr, "signed integer overflow") || ce.CmdIndex != 3 {
 				t.Fatalf("expected ubsan abort, got %v", err)
 			}
 			s.Restart()
